@@ -153,9 +153,17 @@ pub fn run(config: Config) -> ::anyhow::Result<()> {
             .name("signals".into())
             .spawn(move || {
                 for signal in &mut signals {
+                    #[cfg(aquatic_verif)]
+                    if aquatic_common::verif::probe("ws/signals/signal") {
+                        return Ok(());
+                    }
+
                     match signal {
                         SIGUSR1 => {
                             let _ = update_access_list(&config.access_list, &state.access_list);
+
+                            #[cfg(aquatic_verif)]
+                            aquatic_common::verif::note_reload();
 
                             if let Some(tls_config) = opt_tls_config.as_ref() {
                                 match ::std::fs::read(&config.network.tls_certificate_path) {
